@@ -7,17 +7,69 @@ import SimplicityModel.ValueCmp
 namespace Vl
 namespace RVal
 
+/-- `(2^8)^<2^(n+1)`, the buffer type of `types/precomputed.rs`: `S(2^8)` for `n = 0`, else
+`S((2^8)^(2^n)) × (2^8)^<2^n` -/
+def _root_.Vl.Ty.buf8 : Nat → Ty
+  | 0 => .sum .one (Ty.word 3)
+  | n + 1 => .prod (.sum .one (Ty.word (n + 4))) (Ty.buf8 n)
+
+/-- one round of the loop of `Value::buffer8_two_n_plus_one`: when bit `n` of the remaining
+length is set, a `1` tag and the next `2^n` bytes are copied to the destination -/
+def buffer8Step (dest : List Nat) (n off : Nat) (data : List Nat) : List Nat × List Nat :=
+  if (data.length &&& 2 ^ n) != 0 then
+    let d1 := copyBits [0x80] 0 dest off 1
+    (copyBits (data.take (2 ^ n)) 0 d1 (off + 1) (8 * 2 ^ n), data.drop (2 ^ n))
+  else (dest, data)
+
+def buffer8Loop (dest : List Nat) : Nat → Nat → List Nat → List Nat
+  | 0, off, data => (buffer8Step dest 0 off data).1
+  | n + 1, off, data =>
+    let s := buffer8Step dest (n + 1) off data
+    buffer8Loop s.1 n (off + 1 + 8 * 2 ^ (n + 1)) s.2
+
+/-- `Value::buffer8_two_n_plus_one(n, data)`; `none` when the slice is too long -/
+def buffer8 (n : Nat) (data : List Nat) : Option RVal :=
+  if data.length > 2 ^ (n + 1) - 1 then none
+  else some ⟨buffer8Loop (List.replicate (((Ty.buf8 n).bw + 7) / 8) 0) n 0 data, 0, Ty.buf8 n⟩
+
+theorem buffer8Step_spec {dest : List Nat} (h : BytesOK dest) (n off : Nat) (data : List Nat) :
+    (buffer8Step dest n off data).1.length = dest.length ∧ BytesOK (buffer8Step dest n off data).1 := by
+  unfold buffer8Step
+  split
+  · exact ⟨by simp [copyBits_length], bytesOK_copyBits _ _ _ (bytesOK_copyBits _ _ _ h _) _⟩
+  · exact ⟨rfl, h⟩
+
+theorem buffer8Loop_spec : ∀ (n off : Nat) (data dest : List Nat), BytesOK dest →
+    (buffer8Loop dest n off data).length = dest.length ∧ BytesOK (buffer8Loop dest n off data)
+  | 0, off, data, dest, h => buffer8Step_spec h 0 off data
+  | n + 1, off, data, dest, h => by
+    obtain ⟨h1, h2⟩ := buffer8Step_spec h (n + 1) off data
+    obtain ⟨k1, k2⟩ := buffer8Loop_spec n (off + 1 + 8 * 2 ^ (n + 1)) (buffer8Step dest (n + 1) off data).2
+      (buffer8Step dest (n + 1) off data).1 h2
+    exact ⟨by simp only [buffer8Loop]; rw [k1, h1], by simp only [buffer8Loop]; exact k2⟩
+
+theorem buffer8_wf {n : Nat} {data : List Nat} {r : RVal} (h : buffer8 n data = some r) : r.WF := by
+  unfold buffer8 at h
+  split at h
+  · cases h
+  · cases h
+    obtain ⟨h1, h2⟩ := buffer8Loop_spec n 0 data _ (bytesOK_replicate (((Ty.buf8 n).bw + 7) / 8))
+    refine ⟨?_, h2⟩
+    simp only [h1, List.length_replicate]; omega
+
 /-- the word constructors are given as many bytes as `u1 … u512` take -/
 def wordBytesOK (n : Nat) (bytes : List Nat) : Prop :=
   bytes.length = (if n < 3 then 1 else 2 ^ (n - 3)) ∧ BytesOK bytes
 
 /-- **every history**: the values obtainable by constructors, word constructors, `zero`, the two
-decoders on any input, sub-value extraction, prune and the Bit Machine's output decoding, applied
+decoders on any input, the buffer constructor, sub-value extraction, prune and the Bit Machine's
+output decoding, applied
 in any order to each other's results -/
 inductive Built : RVal → Prop
   | unit : Built unit
   | zero (t : Ty) : Built (zero t)
   | word (n : Nat) (bytes : List Nat) : wordBytesOK n bytes → Built (word n bytes)
+  | buffer8 {n data r} : buffer8 n data = some r → Built r
   | left {v} (b : Ty) : Built v → Built (v.left b)
   | right (a : Ty) {v} : Built v → Built (RVal.right a v)
   | product {l r} : Built l → Built r → Built (l.product r)
@@ -50,6 +102,7 @@ theorem Built.wf {r : RVal} (h : Built r) : r.WF := by
   | unit => exact unit_wf
   | zero t => exact (zero_refines t).2
   | word n bytes hb => exact word_wf hb
+  | buffer8 h => exact buffer8_wf h
   | left b _ ih => exact (left_refines ih b).2
   | right a _ ih => exact (right_refines a ih).2
   | product _ _ ih1 ih2 => exact (product_refines ih1 ih2).2
